@@ -93,6 +93,10 @@ func checkC11() int {
 	add("shape", strings.Repeat("\n", 50000)+"=")
 	add("shape", strings.Repeat(" ", 65536))
 	add("shape", strings.Repeat("prc[a] : 1 = close self\n", 40))
+	for _, n := range []int{12, 18, 30} {
+		add("chains", rtypes.DefsText(rtypes.DeepChains(n, 3, "")))
+		add("chains", rtypes.DefsText(rtypes.DeepChains(n, 2, "lin")))
+	}
 	add("decls", strings.Repeat("type A = 1\n", 250))
 	add("decls", strings.Repeat("type A = 1\n", c.pick(1000, 4000)))
 	add("decls", strings.Repeat("let f() : 1 = close self\n", c.pick(600, 2500)))
@@ -114,7 +118,9 @@ func checkC11() int {
 		w := map[string]interface{}{"text": clip(t, 3000), "length": len(t), "source": o.Job.Tag}
 		if o.Died() {
 			w["stderr"] = clip(o.Deaths[0], 3000)
-			if strings.Contains(o.Deaths[0], "verif: scanner step budget") {
+			if strings.Contains(o.Deaths[0], "verif: type algorithm step budget") {
+				c.Violation("parsing does not finish within a polynomial step budget: the mode inference run by the parser explodes", w)
+			} else if strings.Contains(o.Deaths[0], "verif: scanner step budget") {
 				c.Violation("parser does not terminate: scanner keeps reading at the end of the input ("+shapeOf(t)+")", w)
 			} else {
 				c.Violation("parser kills the host: "+normDeath(o.Deaths[0]), w)
